@@ -1684,3 +1684,92 @@ Example col_observable : exists t, parse (render col_doc) = Ok t /\
   get_string_def t (raw "/a/b<c>"%hex) (raw "?"%hex) = Ok (raw "?"%hex) /\ get_string_def t (raw "/a<b>"%hex) [] = Ok (raw "1"%hex)
   /\ get_domain t (raw "/a"%hex) = Ok [].
 Proof. eexists. split; [apply parse_rendered; [apply col_doc_ok|apply col_short]|]. vm_compute. repeat split. Qed.
+
+(* ------------------------------------------------------------------------------------------- *)
+(* the repairs are conservative: whatever the repaired parser accepts, the old loop accepted with the same tree *)
+Lemma st_set_mode m x : st (set_mode m x) = st x. Proof. reflexivity. Qed.
+Lemma st_emit ts x : st (emit ts x) = st x. Proof. reflexivity. Qed.
+Lemma st_put c x : st (put c x) = st x. Proof. reflexivity. Qed.
+Lemma st_puts cs x : st (puts cs x) = st x. Proof. reflexivity. Qed.
+Lemma st_shift c x : st (shift c x) = st x. Proof. reflexivity. Qed.
+Lemma st_reset_b x : st (reset_b x) = st x. Proof. reflexivity. Qed.
+Lemma st_mark s x : st x <> Clean -> mark s x = x.
+Proof. unfold mark. destruct (st x); [contradiction|reflexivity|reflexivity]. Qed.
+Lemma st_flush x : st x <> Clean -> st (flush x) = st x.
+Proof. unfold flush. cbn [st]. destruct (st x); [contradiction|reflexivity|reflexivity]. Qed.
+Lemma st_junk s x : st x <> Clean -> st (junk s x) = st x.
+Proof. intros H. unfold junk. rewrite st_set_mode, st_mark by assumption. reflexivity. Qed.
+
+Lemma st_text_step x c : st x <> Clean -> st (text_step x c) = st x.
+Proof.
+  intros H. unfold text_step. cbv zeta.
+  repeat match goal with |- context [if ?b then _ else _] => destruct b end;
+    rewrite ?(st_mark Failed x H); rewrite ?st_set_mode, ?st_shift, ?st_put, ?st_flush by assumption; reflexivity.
+Qed.
+
+Lemma st_sticky x c : st x <> Clean -> st (lex_step x c) = st x.
+Proof.
+  intros H. unfold lex_step.
+  destruct (mode x);
+    repeat match goal with
+           | |- context [if ?b then _ else _] => destruct b
+           | |- context [match decode_entity ?r with _ => _ end] => destruct (decode_entity r)
+           end;
+    rewrite ?(st_mark Failed x H), ?(st_mark Unmod x H);
+    rewrite ?st_text_step, ?st_reset_b, ?st_set_mode, ?st_emit, ?st_puts, ?st_put, ?st_junk by (rewrite ?st_reset_b, ?st_set_mode, ?st_puts, ?st_put; assumption);
+    rewrite ?st_reset_b, ?st_set_mode, ?st_emit, ?st_puts, ?st_put; try reflexivity.
+Qed.
+
+Lemma fold_sticky : forall bs x, st x <> Clean -> st (fold_left lex_step bs x) = st x.
+Proof.
+  induction bs as [|c r IH]; intros x H; [reflexivity|]. cbn [fold_left].
+  rewrite IH by (rewrite st_sticky; assumption). apply st_sticky. assumption.
+Qed.
+Lemma finish_sticky x : st x <> Clean -> st (lex_finish x) = st x.
+Proof.
+  intros H. unfold lex_finish. destruct (mode x); rewrite ?(st_mark Failed x H); try reflexivity.
+  - apply st_flush. assumption.
+  - rewrite st_flush; [reflexivity|]. rewrite st_puts. assumption.
+Qed.
+
+Lemma lex_prefix_clean : forall bs x, st (lex_finish (fold_left lex_step bs x)) = Clean ->
+  lex_prefix x bs = frev (out (lex_finish (fold_left lex_step bs x))).
+Proof.
+  induction bs as [|c r IH]; intros x H; cbn [lex_prefix fold_left] in *.
+  - rewrite H. reflexivity.
+  - destruct (st (lex_step x c)) eqn:E; [apply IH; assumption| |].
+    + exfalso. rewrite finish_sticky, fold_sticky in H by (rewrite ?fold_sticky; rewrite E; discriminate). rewrite E in H. discriminate.
+    + exfalso. rewrite finish_sticky, fold_sticky in H by (rewrite ?fold_sticky; rewrite E; discriminate). rewrite E in H. discriminate.
+Qed.
+
+Lemma balanced_prefix_id : forall ts stk, balanced_from stk ts = true -> balanced_prefix stk ts = ts.
+Proof.
+  induction ts as [|tok ts IH]; intros stk H; [reflexivity|]. destruct tok as [n|n|tx]; cbn in *.
+  - rewrite IH by assumption. reflexivity.
+  - destruct stk as [|top stk']; [discriminate|]. destruct (bytes_eqb top n); [|discriminate]. rewrite IH by assumption. reflexivity.
+  - rewrite IH by assumption. reflexivity.
+Qed.
+
+Lemma conf_loop_old_same : forall ts s stk t, conf_loop ts s stk = Ok t -> conf_loop_old ts s stk = Ok t.
+Proof.
+  induction ts as [|tok ts IH]; intros s stk t H.
+  - destruct stk; cbn in *; [discriminate|assumption].
+  - destruct stk as [|top below]; [cbn in H; discriminate|].
+    destruct tok as [n|n|tx]; cbn [conf_loop conf_loop_old] in *.
+    + destruct (lookup s (n :: top :: below)); apply IH; assumption.
+    + destruct (bytes_eqb top n); [apply IH; assumption|discriminate].
+    + destruct (do_segments s (top :: below) (split_lines tx)) as [s'|] eqn:D; [|discriminate].
+      apply IH in H. revert s D. induction (split_lines tx) as [|seg l IHl]; intros s D; cbn [do_segments] in D.
+      * inversion D; subst. exact H.
+      * destruct (max_scan_token <=? N.of_nat (length seg)); [discriminate|].
+        destruct (content_line seg); apply IHl; assumption.
+Qed.
+
+Theorem repair_conservative : forall bs t, parse bs = Ok t -> parse_old bs = Ok t.
+Proof.
+  intros bs t H. unfold parse in H. destruct (raw_status bs) eqn:S; try discriminate.
+  destruct (balanced (raw_tokens bs)) eqn:B; [|discriminate].
+  unfold parse_old. unfold raw_status, lex_run in S. rewrite (lex_prefix_clean bs lex_init S).
+  fold (lex_run bs). fold (raw_tokens bs). rewrite balanced_prefix_id by exact B.
+  apply conf_loop_old_same. exact H.
+Qed.
